@@ -278,6 +278,26 @@ def _tracer(state, k):
 
 
 def injection_sweep(frame, obj, nxt, where):
+    """C06 part: whatever happened inside the analysis, nothing of the target may stay referenced afterwards."""
+    tracked = [frame] + [m for m, _e in S.sh] + ([obj] if obj is not None else [])
+    with warnings.catch_warnings():
+        warnings.simplefilter("ignore")
+        try:
+            contexts_active_in_frame(frame, obj, nxt)    # warm-up
+        except BaseException:
+            pass
+    gc.collect()
+    before = [sys.getrefcount(o) for o in tracked]
+    _injection_sweep(frame, obj, nxt, where)
+    gc.collect()
+    after = [sys.getrefcount(o) for o in tracked]
+    S.bump("inject.retention_checks")
+    if after != before:
+        add_obs("pure.retained_after_failed_trickery", where, before=before, after=after,
+                objs=[type(o).__name__ for o in tracked])
+
+
+def _injection_sweep(frame, obj, nxt, where):
     """C20: raise at (a stride of) every point inside the trickery analysis of this very frame state.
     contexts_active_in_frame must never raise; with an InspectionWarning the result must still be a sound
     ordered over-approximation; without one (the interpreter absorbed the exception) it must be exact."""
